@@ -29,6 +29,9 @@ func kfColor(args []KeyBuilderStage) (KeyBuilderStage, error) {
 	}), nil
 }
 
+// Upper limit on {repeat}, so that len(c)*count can't overflow (strings.Repeat panics)
+const maxRepeatCount = 1 << 24
+
 // {repeat c {count}}
 func kfRepeat(args []KeyBuilderStage) (KeyBuilderStage, error) {
 	if len(args) != 2 {
@@ -44,6 +47,9 @@ func kfRepeat(args []KeyBuilderStage) (KeyBuilderStage, error) {
 		count, err := strconv.Atoi(args[1](context))
 		if err != nil {
 			return ErrorNum
+		}
+		if count < 0 || count > maxRepeatCount {
+			return ErrorValue
 		}
 		return strings.Repeat(char, count)
 	}), nil
